@@ -189,6 +189,42 @@ func (context *Context) ResolveRefs(def ast.Type) ast.Type {
 	return def
 }
 
+// IsRecursiveCollection tells whether following the references and the values
+// of the arrays and maps found in `def` leads back to a reference that was
+// already followed (`M: [string]: M`, `A: [...B]` with `B: [...A]`, …).
+// Code that unfolds collections level by level can not unfold these.
+func (context *Context) IsRecursiveCollection(def ast.Type) bool {
+	following := make(map[string]struct{})
+
+	var walk func(def ast.Type) bool
+	walk = func(def ast.Type) bool {
+		switch {
+		case def.IsArray():
+			return walk(def.Array.ValueType)
+		case def.IsMap():
+			return walk(def.Map.ValueType)
+		case def.IsRef():
+			ref := def.Ref.String()
+			if _, found := following[ref]; found {
+				return true
+			}
+			following[ref] = struct{}{}
+			defer delete(following, ref)
+
+			referredObj, found := context.LocateObjectByRef(*def.Ref)
+			if !found {
+				return false
+			}
+
+			return walk(referredObj.Type)
+		}
+
+		return false
+	}
+
+	return walk(def)
+}
+
 func (context *Context) BuildersForType(typeDef ast.Type) ast.Builders {
 	var candidateBuilders ast.Builders
 
